@@ -385,3 +385,54 @@ PROPS["C04"] = dict(
     level_text="Generated shutdown scenarios (720 quick / 4 800 thorough child processes) over every stop path named in the property; the journal must show every accepted message delivered exactly once, before the stop returns, later ones synchronously, and the process must end. Interleavings inside Qt's event delivery are sampled by the OS scheduler, not enumerated.",
     level_note="Trusted: harness/runner_shutdown.cpp, the journal analysis in py/hyp_c04.py; ASan in the child for use of a destroyed worker.",
 )
+
+PROPS["C02"] = dict(
+    harness="rc_concurrent",
+    builds=[dict(harness="rc_concurrent")],
+    engine="rc",
+    level="exploration",
+    quick=dict(cases=40, shards=4, max_size=100, timeout=1500),
+    thorough=dict(cases=320, shards=16, max_size=200, timeout=3400),
+    confirm_replays=3,
+    rule="case = schedule shape: subject (Logger installed as Qt message handler with producers using the qDebug/qInfo/qWarning/qCritical and qC* macros; bare "
+    "OwnThreadHandler<Pipeline> in synchronous mode with producers calling process(); Logger with scoped sub-pipelines behind a level filter and a category filter so "
+    "that messages qualify for a subset of the sinks) x 2..32 producer threads x 1..200 messages each x pre-call delay (none/yield/1-200 us spin) x handler durations "
+    "(first handler, middle, sink: 0..2 ms on every k-th message) x type and category mix. Pipeline under test: in-flight entry probe -> SeqNumberAttr -> recorder -> "
+    "DuplicateFilter -> PrettyFormatter -> sinks -> exit probe; every parkEvery-th entry parks inside the pipeline until another thread enters or 0.1-1.5 ms pass. "
+    "Non-trivial = at least two producers' log calls overlapped in real time (steady-clock stamps around every call) AND a probe park happened while another call was pending; "
+    "distinct = canonical JSON of the shape. The interleaving itself is the OS scheduler's.",
+    assumptions=[
+        "schedules are sampled, not enumerated; memory-model-level races that need a particular preemption inside QMutex are out of reach (DESIGN.md section 4)",
+        "a failing shape is replayed 3 times; it is reported when it fails again at least once, otherwise recorded as inconclusive",
+        "TSan is not used (uninstrumented libQt5Core)",
+    ],
+    floors={"calls_overlapped": 0.8, "park_during_overlap": 0.6, "subject_nested": 0.15, "subject_bare": 0.15},
+    technique="property-based testing (rapidcheck) over generated schedule shapes with a parked in-flight probe forcing overlap; history invariants (exactly-once per qualifying sink, max in-flight 1, per-thread order, consecutive sequence numbers, consistent thread table)",
+    level_text="Generated schedule shapes run with real threads; the recorded history must satisfy exactly-once per qualifying sink, mutual exclusion (parked probe), per-thread order, consecutive sequence numbers and a consistent PrettyFormatter thread table; ASan/UBSan on. Exploration of schedules, not enumeration.",
+    level_note="Trusted: harness/rc_concurrent.cpp (probe, recorders); the OS scheduler for variety. Lock-scope mistakes are made visible by the parked probe, not by timing luck.",
+)
+
+PROPS["C03"] = dict(
+    harness="rc_async",
+    builds=[dict(harness="rc_async")],
+    engine="rc",
+    level="exploration",
+    quick=dict(cases=500, shards=6, max_size=100, timeout=1500),
+    thorough=dict(cases=4000, shards=16, max_size=200, timeout=3400),
+    confirm_replays=3,
+    rule="case = 1..6 producers x 1..60 (120 thorough) messages with generated type, text (all Unicode classes, null), line, and file/function/category each a heap C string that is "
+    "overwritten and freed as soon as the call returns, or a null pointer; 0..3 attributes and a formatted text set on the caller's thread before the hand-off; gate (the sink blocks the "
+    "worker until every producer has returned from all its calls) open/closed; sink delay {0, 50 us, 0.3 ms, 2 ms}; bursts or yields between calls. Subject 'bare': Pipeline[handler, "
+    "OwnThreadHandler<Pipeline>[sink]] driven through process(); subject 'logger': a Logger installed as Qt message handler, moved to its own thread, driven through QMessageLogger. "
+    "Non-trivial = bare subject, >= 2 producers, a null context pointer, mixed types, and (gate open or >= 8 messages queued when the gate opened); distinct = canonical JSON.",
+    assumptions=[
+        "null and empty source-location strings are identified after the hand-off (the copy re-homes them)",
+        "with the 'logger' subject the timestamp is taken inside the library, so only type/text/line/file/function/category/thread id are compared there; NUL in a text is replaced (printf transport)",
+        "a call that has not returned after 20 s with the sink blocked counts as blocking on the sink (calls take microseconds)",
+        "cross-producer FIFO is required only for calls that did not overlap (global ticket before/after each call)",
+    ],
+    floors={"gate_closed": 0.3, "null_context_pointer": 0.5, "queue_depth>=8_at_gate_opening": 0.15, "producers>=2": 0.5},
+    technique="property-based testing (rapidcheck): generated message contents and producer shapes; synchronous twin comparison, ticket-order FIFO sweep, thread-identity and non-blocking (gated sink) invariants; ASan for freed caller buffers",
+    level_text="Generated contents and producer shapes against a live worker thread; every field the sink observes is compared with a twin recorded at call time, order with a ticket sweep, thread identity per handler call, and log calls must return while the sink is blocked. Schedules are sampled.",
+    level_note="Trusted: harness/rc_async.cpp; ASan detects use of the caller's freed buffers.",
+)
